@@ -206,6 +206,8 @@ def confirms(v, nat):
     """does the native run reproduce engine violation v?"""
     if nat.get("assume_failed"):
         return False
+    if nat.get("crash"):
+        return True
     if v["kind"] == "check":
         return v["label"] in (nat.get("failed") or [])
     if v["kind"] == "panic":
@@ -321,13 +323,25 @@ def main():
             continue
         nat = native_replay(cases, all_h, tags, race=conf.get("race", False))
         if isinstance(nat, dict):
-            inconclusive.append("native replay failed to run: " + nat.get("stderr", "")[-1500:] + nat.get("stdout", "")[-1500:])
-            continue
+            # the native test binary died (e.g. a fatal runtime error provoked by one case): replay one by one;
+            # a case that kills the real build is a reproduced failure of the real code
+            nat = []
+            for c in cases:
+                one = native_replay([c], all_h, tags, race=conf.get("race", False))
+                if isinstance(one, dict):
+                    blob = one.get("stdout", "") + one.get("stderr", "")
+                    crashed = "fatal error" in blob or "SIGSEGV" in blob or "unexpected fault address" in blob or "panic:" in blob
+                    nat.append({"assume_failed": False, "failed": None, "reached": [], "panic": "native process crashed" if crashed else "",
+                                "crash": crashed, "error": "" if crashed else blob[-600:]})
+                else:
+                    nat.append(one[0])
         replays += len(cases)
         for v, n in zip(vs, nat[:len(vs)]):
             v["native"] = n
             (confirmed if confirms(v, n) else unconfirmed).append(v)
         for w, n in zip(ws, nat[len(vs):]):
+            if n.get("crash") or n.get("error"):
+                continue
             ok = (not n["assume_failed"]) and (w["label"] in (n.get("reached") or []))
             if w.get("clean") and (n.get("failed") or n.get("panic")):
                 ok = False
